@@ -409,6 +409,98 @@ def main():
                            "value_bits": v, "impl": g, "spec": e, "how": "harness/C06/addconv <scratch>; stdin '<A> <T> <n> <hex...>'"})
     except vlib.BuildError as e:
         chk.violation("build", "add harness build failed: " + str(e)[:1500], {"kind": "build"}, found=False)
+    # ---- INDEX read in every type, and scalar parameters taken from CONST fields (gd_entry read-back) ----
+    try:
+        exe6 = vlib.build_harness(impl, os.path.join(vlib.VERIF, "harness/C06/scalconv.c"))
+        SCONST = {0: 6, 2: 6, 4: 6, 6: 6, 1: 7, 3: 7, 5: 7, 7: 7, 8: 9, 9: 9, 10: 11, 11: 11}
+        hl, ml, meta = [], [], []
+        firsts = [0, 2 ** 24 - 3, 2 ** 24 + 1, 2 ** 25 + 1, 2 ** 31 - 3, 2 ** 32 - 3, 2 ** 53 - 3, 2 ** 53 + 1, 2 ** 60 + 2 ** 36 - 1, 2 ** 62 - 9]
+        firsts += [rng.randrange(2 ** 24, 2 ** 62) for _ in range(6 if not chk.thorough else 60)]
+        for fs in firsts:
+            n = 6
+            hl.append("I %d %d" % (fs, n))
+            for r in range(12):
+                for i in range(n):
+                    ml.append("X 1 6 %d %x" % (r, fs + i))
+            meta.append(("I", fs, n))
+        nsc = 14 if not chk.thorough else 80
+        for t in range(12):
+            st = SCONST[t]
+            base = src[st] if st < 10 else src[9]
+            for _ in range(nsc):
+                v = base[rng.randrange(len(base))]
+                vi = base[rng.randrange(len(base))] if st >= 10 else 0
+                hx = ("%x %x" % (v, vi)) if st >= 10 else ("%x" % v)
+                hl.append("S %d %x %x" % (t, v, vi))
+                for dest in (6, 6, 7, 9, 11, 11, 11):
+                    ml.append("X 1 %d %d %s" % (st, dest, hx))
+                meta.append(("S", t, (v, vi)))
+        sd = vlib.scratch("verif-c06sc-")
+        import concurrent.futures as cf
+        shards = [hl[i::vlib.NPROC] for i in range(vlib.NPROC)]
+        def runsh6(k):
+            d = os.path.join(sd, "s%d" % k); os.makedirs(d, exist_ok=True)
+            return vlib.sh([exe6, d], inp=("\n".join(shards[k]) + "\n").encode(), timeout=1200)
+        with cf.ThreadPoolExecutor(vlib.NPROC) as ex:
+            outs = list(ex.map(runsh6, range(vlib.NPROC)))
+        blocks = {}
+        for k, (rcx, o) in enumerate(outs):
+            bl = [b.strip().split("\n") for b in o.split("END\n") if b.strip()]
+            for j in range(len(shards[k])):
+                blocks[k + j * vlib.NPROC] = bl[j] if j < len(bl) else []
+        rcm, mo = vlib.sh([drv], inp=("\n".join(ml) + "\n").encode(), timeout=3000)
+        mo = mo.strip().split("\n")
+        mi, nsc_eval, bad_sc = 0, 0, {}
+        PN = ["shift", "weq", "wset", "wgt", "lin", "rec", "pol"]
+        PWHAT = {"shift": "PHASE shift (int64)", "weq": "WINDOW EQ threshold (int64)", "wset": "WINDOW SET threshold (uint64)", "wgt": "WINDOW GT threshold (double)",
+                 "lin": "LINCOM scale (complex double)", "rec": "RECIP dividend (complex double)", "pol": "POLYNOM coefficient (complex double)"}
+        for li, m in enumerate(meta):
+            b = blocks.get(li, [])
+            if m[0] == "I":
+                _, fs, n = m
+                rows = {(l.split()[0], int(l.split()[1])): [x for x in l.split()[2:] if not x.startswith("SHORT")] for l in b if l[:2] in ("I ", "J ")}
+                for r in range(12):
+                    nc = 2 if r >= 10 else 1
+                    for i in range(n):
+                        exp = mo[mi]; mi += 1; nsc_eval += 2
+                        if exp == "U":
+                            continue
+                        for tag, what in (("I", "INDEX"), ("J", "PHASE INDEX 0")):
+                            row = rows.get((tag, r), [])
+                            g = " ".join(row[i * nc:(i + 1) * nc])
+                            if g != exp:
+                                bad_sc.setdefault(("index", what, r), []).append((fs + i, g, exp))
+            else:
+                _, t, (v, vi) = m
+                got = {l.split()[1]: " ".join(l.split()[2:]) for l in b if l.startswith("P ")}
+                if any(l.startswith("PUTFAIL") for l in b):
+                    mi += 7
+                    continue
+                for pn in PN:
+                    exp = mo[mi]; mi += 1; nsc_eval += 1
+                    if exp == "U":
+                        continue
+                    g = got.get(pn, "?")
+                    if g != exp:
+                        bad_sc.setdefault(("scalar", pn, t), []).append(((v, vi), g, exp))
+        chk.cov["evaluations"] += nsc_eval
+        chk.cov["index_and_scalar_parameter_evaluations"] = nsc_eval
+        for key, l in sorted(bad_sc.items())[:12]:
+            v, g, e = l[0]
+            found_any = True
+            if key[0] == "index":
+                chk.violation("api/index/%s->%s" % (key[1].replace(" ", "_"), NAMES[key[2]]),
+                              "sample number %d of %s read as %s gives %s, the C conversion of the sample number demands %s (%d such samples)" % (v, key[1], NAMES[key[2]], g, e, len(l)),
+                              {"kind": "impl-vs-spec", "field": key[1], "sample": v, "return_type": NAMES[key[2]], "impl": g, "spec": e,
+                               "how": "harness/C06/scalconv <scratch>; stdin 'I <first> <n>'"})
+            else:
+                chk.violation("api/scalar-parameter/%s/%s" % (key[1], NAMES[key[2]]),
+                              "a %s CONST holding bits %s used as the %s arrives as %s, the C conversion from its storage type demands %s (%d such values)" % (
+                                  NAMES[key[2]], "%x;%x" % v, PWHAT[key[1]], g, e, len(l)),
+                              {"kind": "impl-vs-spec", "const_type": NAMES[key[2]], "value_bits": "%x %x" % v, "parameter": PWHAT[key[1]], "impl": g, "spec": e,
+                               "how": "harness/C06/scalconv <scratch>; stdin 'S <T> <hex> <heximag>'"})
+    except vlib.BuildError as e:
+        chk.violation("build", "scalar/index harness build failed: " + str(e)[:1500], {"kind": "build"}, found=False)
     # ---- conversions inside derived fields: two consecutive reads with different return types ----
     try:
         exe3 = vlib.build_harness(impl, os.path.join(vlib.VERIF, "harness/C06/derivconv.c"))
